@@ -42,7 +42,7 @@ func H_C09_fail() {
 	timing := vfParam("timing", 0)
 	prefix := vfParam("prefix", 0)
 	wfail := vfParam("wfail", 0)
-	eof := vfParam("eof", 0) // the read failure is io.EOF (1) or wraps io.EOF (2): the peer closed the connection
+	eof := vfParam("eof", 0) // the read failure is io.EOF (1) or wraps io.EOF (2): the peer closed the connection; 3/4: it is / wraps context.Canceled
 	conn := newZZConn()
 	conn.wch = make(chan *goatorepo.Rpc, 8)
 	rm := NewRpcMultiplexer(conn)
@@ -81,6 +81,10 @@ func H_C09_fail() {
 			conn.rerr <- io.EOF
 		case 2:
 			conn.rerr <- &zzWrapErr{io.EOF}
+		case 3: // the transport's read fails with a context error of its own (e.g. a torn-down websocket)
+			conn.rerr <- context.Canceled
+		case 4:
+			conn.rerr <- &zzWrapErr{context.Canceled}
 		default:
 			conn.rerr <- errors.New("connection reset")
 		}
